@@ -54,7 +54,8 @@ ImplCmp(i, e) ==
   LET n == Apply(i, e) IN
   IF e.op = "src" /\ Len(i.G.nodes) <= DriftMaxNodes THEN <<SrcDrift(i, e), i>>
   ELSE IF e.op = "cls" THEN <<ClsDrift(i, e), i>>
-  ELSE IF e.op = "graph" THEN <<GraphDrift(e), [n EXCEPT !.done = <<>>]>>
+  ELSE IF e.op \in {"graph", "regraph"}
+  THEN <<GraphDrift(e), [n EXCEPT !.done = <<>>]>>
   ELSE <<{}, i>>
 
 TraceBatch == JsonDeserialize(IOEnv.TRACE_FILE).traces
